@@ -507,6 +507,11 @@ class InClass:
         overlap = int_param(params, md, 'overlap', 0)
         orphan = int_param(params, md, 'orphan', '0')
         start, end, sz = opt(start, end, size, orphan, sequence)
+        try:
+            # an explicit ``end`` may lie beyond the end of the sequence
+            sequence[end - 1]
+        except IndexError:
+            end = len(sequence)
         if 'next' in params:
             next = 1
         if 'previous' in params:
